@@ -55,6 +55,20 @@ def run_row(row):
     before = b.to_text(**FQ)
     nav("navigate(str)", lambda: b.navigate(ref).to_text(**FQ), target)
     nav("navigate(URL)", lambda: b.navigate(URL(ref)).to_text(**FQ), target)
+    # a base that links to itself (the base object handed over as the reference), written with a dot segment and an upper-case
+    # scheme so that normalising it in place would show: the base is left as it was, and so is a base that was used as
+    # somebody else's reference before
+    try:
+        bb = URL(base)
+        bb.path_parts = tuple(bb.path_parts) + ("x", "..", "y")
+        bb.scheme = bb.scheme.upper()
+        bb_before = (bb.to_text(**FQ), tuple(bb.path_parts), bb.scheme)
+        bb.navigate(bb)
+        URL("http://elsewhere.example/").navigate(bb)
+        if (bb.to_text(**FQ), tuple(bb.path_parts), bb.scheme) != bb_before:
+            bad.append(("base-modified-by-self-link", bb.to_text(**FQ), bb_before[0]))
+    except Exception as ex:
+        bad.append(("base-modified-by-self-link", "raised:" + core.exc_name(ex), base))
     # the same reference as an object put together piece by piece (query and fragment filled in after construction):
     # taken only when it renders to the very same reference text
     try:
